@@ -189,6 +189,18 @@ claim("C12", "other",
       "symbolic execution of the real tree evolution code with Krylov/LAPACK contract stubs + independent einsum oracle + z3",
       "DESIGN.md section 1, C12")
 
+claim("C17", "other",
+      "(a) the real int_to_h + qc_model (+ Mpo) on SYMBOLIC integrals, one solver variable per permutation-symmetry class, 1-3 spatial orbitals (Mpo up to 2), flat/stacked, with/"
+      "without quantum numbers, vanishing classes: dense operator = second-quantised Hamiltonian from an independent occupation-number representation (spin-orbital and textbook "
+      "spatial form), Hermitian, commutes with N_alpha and N_beta. (b) the real Mpo.try_swap_site on symbolic-factor operators, every neighbouring pair and swap sequences: plain -> "
+      "P H P^T, Jordan-Wigner -> F H F^T, labels valid. (c) the real _update_mps with on-the-fly swapping on a symbolic two-site tensor, swap decision a solver variable: state = (P or "
+      "F) c iff swapped, model order exchanged, labels valid, sector kept.",
+      "4 spatial orbitals outside the bound; swap criteria (entropy/discarded weight: float functions of singular values) replaced by arbitrary values - every decision explored, its "
+      "quality not judged; whole optimisation/evolution runs with swapping are covered by composition, not executed; operators for the swap harness are built with Hopcroft-Karp "
+      "(QR-built operators only as concrete witnesses, which carry the recorded finding); generic integrals (non-identically-zero combinations are non-zero).",
+      "symbolic execution of the real qc_model / swap_site / _update_mps code on z3-valued integrals and tensors with LAPACK contract stubs + occupation-number oracle + z3",
+      "DESIGN.md section 1, C17")
+
 for pid in ["C%02d" % i for i in range(1, 21)]:
     if pid not in CHECKS:
         NA[pid] = "check not built yet (build in progress; see DESIGN.md)"
